@@ -78,7 +78,7 @@ ISNAN_NEW = "import numpy as np\nreturn np.isnan(x).any()"
 # hash of the body text (ast.unparse, docstring removed) of every function the model mirrors
 EXPECT = {
     ('dagrt/builtins_python.py', None, 'builtin_array'): 'c46e6ff23ef34372',
-    ('dagrt/builtins_python.py', None, 'builtin_dot_product'): 'ac16c7fc7199be74',
+    ('dagrt/builtins_python.py', None, 'builtin_dot_product'): 'acd5dedb78058238',
     ('dagrt/builtins_python.py', None, 'builtin_elementwise_abs'): '70d2a630ecc127d0',
     ('dagrt/builtins_python.py', None, 'builtin_len'): '15f70a9f8a854224',
     ('dagrt/builtins_python.py', None, 'builtin_linear_solve'): '0e54f43df1eae895',
